@@ -151,6 +151,14 @@ theorem c07_path_sound {t : Tree} {segs : List Str} {q : Path} (h : getReferable
     StepsMatch t q segs ∧ ∃ n, sub t q = some n :=
   ⟨getReferable_sound segs t q h, StepsMatch.sub_some segs t q (getReferable_sound segs t q h)⟩
 
+/-- `get_referable("x")` is `get_referable(["x"])`, and following a path one segment at a time with the bare-string form
+    (`obj = root; for seg in path: obj = obj.get_referable(seg)`) gives exactly the result - element or error - of the one
+    call with the whole path; so every statement about paths below holds for all three ways of following one -/
+theorem c07_stepwise (t : Tree) (segs : List Str) :
+    followStepwise t segs = getReferable t segs ∧
+    (∀ s, getReferableArg t (.single s) = getReferableArg t (.many [s])) :=
+  ⟨followStepwise_eq segs t, fun _ => rfl⟩
+
 /-- whatever `resolve` returns lies in the identifiable the provider holds for the first key, is reached by steps
     matching the remaining key values, and has the referenced type -/
 theorem c07_resolve_sound {prov : List Store} {r : MRef} {u : Nat} {q : Path} (h : resolve prov r = .ok (u, q)) :
@@ -403,6 +411,7 @@ example : getReferable exTree ["outer".toList, "+0".toList, " 1 ".toList] = .ok 
 example : getReferable exTree ["outer".toList, ['0'], ['x']] = .error .valueError := by decide
 example : getReferable exTree ["op".toList, "in".toList, ['x']] = .error .typeError := by decide
 example : getReferable exTree ["nope".toList] = .error .keyError := by decide
+example : followStepwise exTree ["outer".toList, ['0'], ['1']] = .ok [0, 0, 1] := by decide
 example : keyEq ⟨.submodel, ['a']⟩ ⟨.submodel, ['a']⟩ = true ∧ keyEq ⟨.submodel, ['a']⟩ ⟨.property, ['a']⟩ = false := by decide
 example : saiSetattr "parent".toList true = .assigned ∧ saiSetattr "name".toList true = .attributeError := by decide
 
